@@ -150,7 +150,7 @@ def run(tier: str, seed: int, rep: Report, model: Model) -> dict:
                 rep.violation({"what": "an object that does not implement the protocol did not give DLTypeScopeProviderError", **rec})
         else:
             ref = GC.reference(case)
-            if im["v"] == "accept" and ref["v"] != "accept":
+            if im["v"] == "accept" and ref["v"] not in ("accept", "unknown"):
                 rep.violation({"what": "accepted although a tensor contradicts the provided sizes", "reference": ref, **rec})
             elif ref["v"] == "accept" and im["v"] not in ("accept", "identity"):
                 rep.violation({"what": "rejected although the tensors match the provided sizes", "reference": ref, **rec})
